@@ -51,7 +51,13 @@ def run_check(prop, argv, props, rule, level="model_checking", quick_budget=240,
     total = None
     fam_info = []
     exhaustive = True
+    only = c.opts.get("only")   # development aid: --only=<substring of a scenario name>; the run is not exhaustive then
     for name, scs, depth, devbound in fam_fn(c.tier):
+        if only:
+            scs = [x for x in scs if only in x["name"]]
+            exhaustive = False
+            if not scs:
+                continue
         left = c.time_left()
         if left < 5:
             fam_info.append({"family": name, "scenarios": len(scs), "skipped": "global deadline reached"})
